@@ -324,6 +324,9 @@ func c02(r *Report) {
 	})
 
 	r.Guard("C02.R4", "a modifier error becomes a Warning on the message just modified and processing continues", func() {
+		// turning a modifier's error into a Warning cannot fail itself: no last-element indexing or
+		// slicing of a possibly empty value on that path (MultiError.Error of an empty collection)
+		lastIndexRule(r, "", "proxyutil")
 		if wf := r.Use("proxyutil", "Warning"); wf != nil {
 			warningQuoted(r, wf)
 		}
